@@ -22,7 +22,8 @@ Inductive rop :=
 | RKill (c : nat)
 | RDie (i : nat)              (* the process is killed from outside *)
 | RCancel (i : nat)           (* cancel the context of a test-mode server *)
-| RAlive (i : nat).
+| RAlive (i : nat)
+| RAgain (c : nat).           (* Start once more on client c *)
 
 Fixpoint updl {A} (l : list A) (i : nat) (x : A) : list A :=
   match l, i with [], _ => [] | _ :: t, O => x :: t | h :: t, S j => h :: updl t j x end.
@@ -92,6 +93,13 @@ Definition rstep (net : bool) (w : world) (o : rop) (hint : Z) : world * Z :=
                  | None => (w, (-2)%Z)
                  end
   | RAlive i => (w, if inst_alive w i then 1%Z else 0%Z)
+  | RAgain c =>
+      (* a client that has an address keeps answering with it; one whose attach failed is not attached by asking again
+         (whatever has become of the instance: a dead one does not come back) *)
+      match nth_error (cls w) c with
+      | Some x => (w, if c_conn x then 1%Z else 0%Z)
+      | None => (w, (-2)%Z)
+      end
   end.
 
 (* run a history; [hints] are the observed outcomes, consulted only where the model leaves a choice open *)
@@ -113,6 +121,7 @@ Definition drop_ (v : V) : option rop :=
   | VL [VI 5%Z; VI i; _] => Some (RDie (Z.to_nat i))
   | VL [VI 6%Z; VI i; _] => Some (RCancel (Z.to_nat i))
   | VL [VI 7%Z; VI i; _] => Some (RAlive (Z.to_nat i))
+  | VL [VI 8%Z; VI c; _] => Some (RAgain (Z.to_nat c))
   | _ => None
   end.
 
